@@ -1,5 +1,5 @@
 \* outside the side condition: more distinct IDs than the window -> an evicted ID is forwarded again
-CONSTANTS IdPool = {a, b, c} LruCap = 2 MaxBatch = 2 MaxLists = 3 NoDedup = FALSE
+CONSTANTS IdPool = {a, b, c} LruCap = 2 MaxBatch = 2 MaxLists = 3 NoDedup = FALSE ForgetOnFailure = FALSE
 INIT Init
 NEXT Next
 CHECK_DEADLOCK FALSE
